@@ -482,11 +482,19 @@ def _short(x):
     return s if not isinstance(s, str) or len(s) < 40 else s[:40] + '...'
 
 
+def minimise(fkey, case):
+    def fails_same(ops):
+        r = replay(dict(case, ops=core.jsonable(ops)))
+        return bool(r) and r[0][0] == fkey
+    ops = core.ddmin_list(list(case["ops"]), fails_same, max_tests=120)
+    return dict(case, ops=ops)
+
+
 def shard(which, seed_value, n, steps):
     stats = core.Stats()
     f = core.Findings("C16")
     core.run_machine_collect(stats, lambda report: make_machine(stats, report, which), seed_value, n, steps, rounds=6,
-                             is_known=lambda k: f.match(k) is not None)
+                             is_known=lambda k: f.match(k) is not None, minimise=minimise)
     return stats
 
 
